@@ -367,28 +367,47 @@ def runHistory (st : PrinterState) : List (Opts × SchemaD × Apps) → List Str
 
 /-! ### `schemaToDoc`: the definitions the printer writes, as a document (the by-name content of `to_string`) -/
 
+/-- `print_deprecated`: an empty reason or the default reason prints as bare `@deprecated` -/
 def deprDirs (r : Option String) : List DirApp :=
-  match r with | none => [] | some x => [{ name := "deprecated", args := [("reason", .str x)] }]
+  match r with
+  | none => []
+  | some x => if x.isEmpty || x == DEFAULT_DEPRECATION then [{ name := "deprecated" }]
+              else [{ name := "deprecated", args := [("reason", .str x)] }]
+
+/-- `print_description`: an empty description is not printed -/
+def descToDoc (d : Option String) : Option String :=
+  match d with | some x => if x.isEmpty then none else some x | none => none
 
 def argToDef (s : SchemaD) (a : ArgD) : InputValDef :=
-  { name := a.name, desc := a.desc, type := a.type, default := if a.hasDefault then valueLit s valueFuel a.default a.type else none }
+  { name := a.name, desc := descToDoc a.desc, type := a.type,
+    default := if a.hasDefault then valueLit s valueFuel a.default a.type else none }
 
 def fieldToDef (s : SchemaD) (f : FieldD) : FieldDef :=
-  { name := f.name, desc := f.desc, args := f.args.map (argToDef s), type := f.type, dirs := deprDirs f.deprecated }
+  { name := f.name, desc := descToDoc f.desc, args := f.args.map (argToDef s), type := f.type, dirs := deprDirs f.deprecated }
 
-def enumValToDef (v : EnumValD) : EnumValDef := { name := v.name, desc := v.desc, dirs := deprDirs v.deprecated }
+def enumValToDef (v : EnumValD) : EnumValDef := { name := v.name, desc := descToDoc v.desc, dirs := deprDirs v.deprecated }
 
 def typeToDef (s : SchemaD) (t : TypeD) : TypeDef :=
-  { kind := t.kind, name := t.name, desc := t.desc, interfaces := t.interfaces, fields := t.fields.map (fieldToDef s),
+  { kind := t.kind, name := t.name, desc := descToDoc t.desc, interfaces := t.interfaces, fields := t.fields.map (fieldToDef s),
     members := t.members, values := t.values.map enumValToDef, inputFields := t.inputFields.map (argToDef s) }
 
 def directiveToDef (s : SchemaD) (d : DirectiveD) : DirDef :=
-  { name := d.name, desc := d.desc, args := d.args.map (argToDef s), locations := d.locations }
+  { name := d.name, desc := descToDoc d.desc, args := d.args.map (argToDef s), locations := d.locations }
 
+/-- `print_schema_definition` (without schema-level directive applications): the `schema { … }` block is written
+    unless every root that is set carries its conventional name -/
+def needsSchemaBlock (s : SchemaD) : Bool :=
+  let dflt (r : Option String) (n : String) := match r with | none => true | some x => x == n
+  !(dflt s.query "Query" && dflt s.mutation "Mutation" && dflt s.subscription "Subscription")
+
+def rootOps (s : SchemaD) : List (String × String) :=
+  (match s.query with | some q => [("query", q)] | none => []) ++
+  (match s.mutation with | some q => [("mutation", q)] | none => []) ++
+  (match s.subscription with | some q => [("subscription", q)] | none => [])
+
+/-- the document `to_string` denotes: schema block (if needed), directive definitions, type definitions -/
 def schemaToDoc (s : SchemaD) : Doc :=
-  s.directives.map (fun d => .directive (directiveToDef s d)) ++ s.types.map (fun t => .type (typeToDef s t)) ++
-  [.schema { ops := (match s.query with | some q => [("query", q)] | none => []) ++
-                    (match s.mutation with | some q => [("mutation", q)] | none => []) ++
-                    (match s.subscription with | some q => [("subscription", q)] | none => []) }]
+  (if needsSchemaBlock s then [.schema { ops := rootOps s }] else []) ++
+  s.directives.map (fun d => .directive (directiveToDef s d)) ++ s.types.map (fun t => .type (typeToDef s t))
 
 end PyGql.SdlPrint
